@@ -165,11 +165,32 @@ def unversioned_job(only=None):
                 probe_timeout=3000, _transport='grpc', _cells=cells)
 
 
+def no_namespace_job(only=None):
+    """The same API under a proto package without a namespace segment (smp.v1): samples import the package directly."""
+    from google.protobuf import text_format
+    from google.protobuf.compiler import plugin_pb2
+    req, cells, dep = build('grpc')
+    txt = text_format.MessageToString(req).replace('acme.smp.v1', 'smp.v1').replace('acme/smp/v1/', 'smp/v1/')
+    req2 = plugin_pb2.CodeGeneratorRequest()
+    text_format.Parse(txt, req2)
+    desc.gate(req2)
+    cells = [dict(c, id='no-namespace/' + c['id'], req=c['req'].replace('.acme.smp.v1.', '.smp.v1.'), resp=c['resp'].replace('.acme.smp.v1.', '.smp.v1.'))
+             for c in cells if c['kit'] in ('none', 'enum', 'dep-package')]
+    if only:
+        cells = [c for c in cells if c['id'] in only]
+    return dict(id='samples/grpc/no-namespace', req=req2.SerializeToString(), probe='mc.probes.samples', pb2_files=[dep.SerializeToString()],
+                probe_args=dict(package='smp_v1', proto_package='smp.v1', cells=cells, transport='grpc', shortname='smpapi', version='v1',
+                                service='Smp'),
+                probe_timeout=3000, _transport='grpc', _cells=cells)
+
+
 def run(ctx, only=None):
     jobs = [make_job(t, (only or {}).get('cells')) for t in ('grpc', 'rest', 'grpc+rest')
             if not only or only.get('transport') in (None, t)]
     if not only or any(str(c).startswith('unversioned/') for c in (only.get('cells') or [])):
         jobs.append(unversioned_job((only or {}).get('cells')))
+    if not only or any(str(c).startswith('no-namespace/') for c in (only.get('cells') or [])):
+        jobs.append(no_namespace_job((only or {}).get('cells')))
     jobs = [j for j in jobs if j['_cells']]
     ctx.log(f'{sum(len(j["_cells"]) for j in jobs)} RPC cells over {len(jobs)} transports')
     ran = 0
